@@ -3,12 +3,12 @@
 # without the change) in a scratch worktree, then applies it to /repo, runs the property's check and undoes it.
 d=$1; prop=$2
 export GOPROXY=off GOSUMDB=off GOTOOLCHAIN=local GOFLAGS=
-wt=$(mktemp -d /tmp/evalseed-XXXX); rmdir $wt
+wt=$(mktemp -d /tmp/evalseed-XXXX); rmdir $wt; bl=$(mktemp /tmp/evalseed-build-XXXX)
 git -C /repo worktree add -q --detach $wt HEAD || exit 2
 demodir=$(cat $d/DEMO_DIR.txt | tr -d '\n' | sed 's|^\./||; s|/$||')
 res=$d/EVAL.txt; : > $res
 ( cd $wt && git apply $d/patch.diff ) || { echo "PATCH DOES NOT APPLY" | tee -a $res; git -C /repo worktree remove --force $wt; exit 3; }
-( cd $wt && go build ./... && cd gcetcbendorsement && go build ./... ) > /tmp/evalseed.build 2>&1 && echo "build: ok" | tee -a $res || { echo "build: FAILED" | tee -a $res; tail -5 /tmp/evalseed.build | tee -a $res; }
+( cd $wt && go build ./... && cd gcetcbendorsement && go build ./... ) > $bl 2>&1 && echo "build: ok" | tee -a $res || { echo "build: FAILED" | tee -a $res; tail -5 $bl | tee -a $res; }
 # suite with the change
 out=$(mktemp)
 for m in . gcetcbendorsement; do (cd $wt/$m && go test -json -vet=off -count=1 -timeout 25m ./... ) >> $out 2>/dev/null; done
@@ -32,12 +32,11 @@ echo "demo WITH change:" | tee -a $res
 ( cd $wt && git apply -R $d/patch.diff )
 echo "demo WITHOUT change:" | tee -a $res
 ( cd $wt/$demodir && timeout 600 go test -count=1 -run "$names" . 2>&1 | tail -3 ) | tee -a $res
-git -C /repo worktree remove --force $wt
-# checker on /repo with the change
-[ -n "$(git -C /repo status --porcelain)" ] && { echo "/repo not clean"; exit 4; }
-git -C /repo apply $d/patch.diff
+# checker on the worktree with the change re-applied (no need to touch /repo; tools/try_seed.sh does the /repo run)
+( cd $wt && git apply $d/patch.diff && rm -f $demodir/zz_seed_demo_test.go )
 for p in $prop; do
   echo "== vcheck $p with change:" | tee -a $res
-  /verif/bin/vcheck -prop $p -tier quick -no-evidence 2>&1 | grep -E "^VIOLATION|^  \[violated\]|^  \[undecided\]|tier=" | cut -c1-330 | tee -a $res
+  /verif/bin/vcheck -repo $wt -prop $p -tier quick -no-evidence 2>&1 | grep -E "^VIOLATION|^  \[violated\]|^  \[undecided\]|tier=|malfunction" | sed "s#$wt/##g" | cut -c1-330 | tee -a $res
 done
-git -C /repo checkout -- . ; git -C /repo status --short
+git -C /repo worktree remove --force $wt
+rm -f $bl
